@@ -1,4 +1,4 @@
-import Nv.Model.C14
+import Nv.Proofs.C14Routing
 /-!
 C14 — property theorems for the serial executors (model: `Nv.Model.C14`).
 -/
@@ -46,5 +46,348 @@ theorem not_slot_in_range_absFirst : ¬ SlotOk slotAbsFirst := by
   have := (h (BitVec.intMin 64) 509#64 (by decide)).1
   rw [witness_slotAbsFirst_minInt] at this
   omega
+
+
+/-! ### one lane: every reachable state, i.e. every schedule of callers, consumer, callee returns,
+cancellations and Stop (line, runner, pchan are one lane; a MultiLine is an array of them, below) -/
+
+section lane
+variable (cfg : Cfg) (k : Kind) (cap idx : Nat) (l : Lane) (hr : (laneLTS cfg k cap idx).Reach l)
+include hr
+
+theorem lane_static : l.kind = k ∧ l.idx = idx ∧ l.cap = cap := by
+  induction hr with
+  | init => exact ⟨rfl, rfl, rfl⟩
+  | step _ hstep ih =>
+    have := step_static cfg _ _ _ hstep
+    exact ⟨this.1.trans ih.1, this.2.1.trans ih.2.1, this.2.2.trans ih.2.2⟩
+
+/-- `lane_start_order`: the calls started on a lane are a subsequence of the calls accepted on it, in
+acceptance order (ids are issued in acceptance order, so: strictly increasing) -/
+theorem lane_start_order :
+    (startIds l.log).Sublist l.accepted ∧ l.accepted.Pairwise (· < ·) ∧ (startIds l.log).Pairwise (· < ·) := by
+  have h := linv_reach cfg k cap idx l hr
+  have hsub : (startIds l.log).Sublist l.accepted := by
+    rw [h.acc_split]; exact h.starts_sub.trans (List.sublist_append_left _ _)
+  exact ⟨hsub, h.acc_sorted, h.acc_sorted.sublist hsub⟩
+
+/-- `lane_at_most_once`: no call is started twice -/
+theorem lane_at_most_once : (startIds l.log).Nodup := by
+  have := (lane_start_order cfg k cap idx l hr).2.2
+  exact this.imp (fun h => Nat.ne_of_lt h)
+
+/-- `lane_serial`: on a lane, start and end events alternate — a call starts only while none runs, the
+call that ends is the one that runs — and the consumer's state is what the log says -/
+theorem lane_serial : runState (runEvents l.log) = some (consRunning l.cons) :=
+  (linv_reach cfg k cap idx l hr).run_state
+
+/-- the callee of a call returns at most once, and only after it was started -/
+theorem lane_end_once : finIds l.log ++ (consRunning l.cons).toList = startIds l.log ∧ (finIds l.log).Nodup := by
+  have h := (rinv_reach cfg k cap idx l hr).2.fin
+  refine ⟨h, ?_⟩
+  have hn := lane_at_most_once cfg k cap idx l hr
+  unfold FinOk at h
+  rw [← h] at hn
+  exact (List.nodup_append.1 hn).1
+
+/-- `lane_result_routing`: what `AsyncCall` of call id returned is the value its own callee returned
+(and a callee returns one value), or its own context's error (its context was cancelled), or a
+rejection (`closed` only after Stop, `full`) — never another call's result -/
+theorem lane_result_routing (id : Nat) (r : Res) (h : Ev.ret id r ∈ l.log) :
+    ((isCalleeRes r = true ∧ Ev.fin id r ∈ l.log ∧ ∀ r', Ev.fin id r' ∈ l.log → r' = r) ∨
+     (r = .ctx ∧ Cancelled l.calls id) ∨ (r = .closed ∧ l.stopped = true) ∨ r = .full) := by
+  have hinv := rinv_reach cfg k cap idx l hr
+  rcases hinv.2.ret id r h with ⟨a, b⟩ | h2
+  · left
+    refine ⟨a, b, fun r' hr' => ?_⟩
+    exact fin_unique_aux l.log (lane_end_once cfg k cap idx l hr).2 id r' r hr' b
+  · exact Or.inr h2
+
+/-- the index handed to the callee is the lane's own -/
+theorem lane_index_passed (id ln : Nat) (h : Ev.start id ln ∈ l.log) : ln = idx := by
+  rw [(linv_reach cfg k cap idx l hr).idx_ok id ln h]
+  exact (lane_static cfg k cap idx l hr).2.1
+
+/-- `stop_drains` (line, multi-line, runner queue): a consumer that has exited has taken every accepted
+call; for line / multi-line every accepted call was started exactly once, in order -/
+theorem stop_drains (hk : k ≠ .pchan) (he : l.cons = .exited) :
+    l.queue = [] ∧ l.popped = l.accepted ∧ ((k = .line ∨ k = .mline) → startIds l.log = l.accepted) := by
+  have h := linv_reach cfg k cap idx l hr
+  have hs := lane_static cfg k cap idx l hr
+  have hq : l.queue = [] := (h.exited_drained he).2 (by rw [hs.1]; exact hk)
+  have hp : l.popped = l.accepted := by rw [h.acc_split, hq, List.append_nil]
+  refine ⟨hq, hp, fun hkk => ?_⟩
+  rw [← hp]; exact h.starts_eq (by rw [hs.1]; exact hkk)
+
+/-- before the consumer exits, for line / multi-line: the started calls followed by the queued ones are
+exactly the accepted ones (nothing is lost, reordered or duplicated at any moment) -/
+theorem lane_nothing_lost (hkk : k = .line ∨ k = .mline) : startIds l.log ++ l.queue = l.accepted := by
+  have h := linv_reach cfg k cap idx l hr
+  have hs := lane_static cfg k cap idx l hr
+  rw [h.starts_eq (by rw [hs.1]; exact hkk), h.acc_split]
+
+end lane
+
+/-! ### Stop -/
+
+/-- `stop_rejects_new`: in a stopped lane no submission is accepted (queue and accepted list unchanged, the
+caller is told `closed`) — for every kind, for the configurations in `Proved` -/
+theorem stop_rejects_new (cfg : Cfg) (hc : Proved cfg) (l l' : Lane) (id : Nat) (enq : Bool)
+    (hst : l.stopped = true) (hs : l.step cfg (.submit id enq) = some l') :
+    l'.accepted = l.accepted ∧ l'.queue = l.queue ∧ l'.log = l.log ++ [.ret id .closed] := by
+  obtain ⟨_, he⟩ := submit_effect cfg l l' id enq hs
+  rcases he with ⟨_, hw⟩ | ⟨r, e, hwhy⟩
+  · rcases hw with hw | ⟨_, hw⟩
+    · rw [hst] at hw; cases hw
+    · exact absurd hc hw
+  · subst e
+    refine ⟨rfl, rfl, ?_⟩
+    -- the reason is `closed`: `full` is answered only by an open lane
+    simp only [Lane.step] at hs
+    have hcl : r = .closed := by
+      rcases hwhy with e | ⟨e, _⟩
+      · subst e
+        exfalso
+        split at hs
+        · cases hs
+        · split at hs
+          · simp only [hst, Bool.not_true, Bool.false_eq_true, if_false] at hs
+            rw [hc] at hs
+            simp only [Option.some.injEq] at hs
+            have := congrArg Lane.log hs
+            simp [Lane.reject] at this
+          · simp only [Option.some.injEq] at hs
+            have := congrArg Lane.log hs
+            simp [Lane.reject] at this
+      · exact e
+    rw [hcl]; rfl
+
+/-- today's accept path of `ProcChan` (`racyThreeWaySelect`): a stopped ProcChan whose consumer is still
+busy takes a new call into its channel, and the consumer then executes it — after `Stop` returned -/
+theorem witness_pchan_accepts_after_stop :
+    (laneLTS ⟨.racyThreeWaySelect⟩ .pchan 2 0).run (Lane.init .pchan 2 0)
+      [.submit 0 true, .pop true, .stop, .recv 0 2, .submit 1 true, .finish 0 (.ok 1), .pop true] =
+    some { kind := .pchan, cap := 2, idx := 0, stopped := true, queue := [], cons := .running 1,
+           calls := [⟨0, false, false, some (.ok 1)⟩, ⟨1, false, true, none⟩], next := 2,
+           log := [.start 0 0, .ret 0 .closed, .fin 0 (.ok 1), .start 1 0], accepted := [0, 1], popped := [0, 1] } := by
+  decide
+
+theorem not_stop_rejects_new_racy :
+    ¬ (∀ (l l' : Lane) (id : Nat) (enq : Bool), l.stopped = true →
+        l.step ⟨.racyThreeWaySelect⟩ (.submit id enq) = some l' → l'.accepted = l.accepted) := by
+  intro h
+  have := h { Lane.init .pchan 2 0 with stopped := true } _ 0 true rfl rfl
+  simp [Lane.accept, Lane.init] at this
+
+/-- the repaired accept path on the same schedule: the call is turned away -/
+example : (laneLTS ⟨.stopFirst⟩ .pchan 2 0).run (Lane.init .pchan 2 0)
+      [.submit 0 true, .pop true, .stop, .recv 0 2, .submit 1 true] =
+    some { kind := .pchan, cap := 2, idx := 0, stopped := true, queue := [], cons := .running 0,
+           calls := [⟨0, false, false, none⟩, ⟨1, false, false, none⟩], next := 2,
+           log := [.start 0 0, .ret 0 .closed, .ret 1 .closed], accepted := [0], popped := [0] } := by
+  decide
+
+/-- `lane_terminates`, part 1: once stopped, every iteration of the consumer loop strictly decreases
+`remaining = backlog + 1` (0 when exited): at most backlog + 1 iterations are left -/
+theorem lane_terminates_decreases (cfg : Cfg) (l l' : Lane) (take : Bool) (_hst : l.stopped = true)
+    (hs : l.step cfg (.pop take) = some l') : l'.remaining < l.remaining := by
+  obtain ⟨hc, he⟩ := pop_effect cfg l l' take hs
+  rcases he with ⟨e, _, _⟩ | ⟨c, rest, hq, e⟩
+  · subst e; simp [Lane.remaining, Lane.doExit, hc]
+  · subst e
+    unfold Lane.take
+    split <;> simp [Lane.remaining, hc, hq]
+
+/-- part 2: a stopped lane's idle consumer is never parked — its next iteration is enabled -/
+theorem lane_terminates_not_stuck (cfg : Cfg) (l : Lane) (hst : l.stopped = true) (hc : l.cons = .idle) :
+    ∃ l', l.step cfg (.pop true) = some l' := by
+  simp only [Lane.step, hc]
+  cases hq : l.queue with
+  | nil => simp [hst]
+  | cons c rest => simp
+
+/-- part 3: nothing else adds work to a stopped lane (for the configurations in `Proved`) -/
+theorem lane_terminates_no_new_work (cfg : Cfg) (hcfg : Proved cfg) (l l' : Lane) (a : LAct)
+    (hst : l.stopped = true) (hs : l.step cfg a = some l') : l'.remaining ≤ l.remaining ∧ l'.stopped = true := by
+  cases a with
+  | submit id enq =>
+    have h := stop_rejects_new cfg hcfg l l' id enq hst hs
+    obtain ⟨_, he⟩ := submit_effect cfg l l' id enq hs
+    rcases he with ⟨_, hw⟩ | ⟨r, e, _⟩
+    · rcases hw with hw | ⟨_, hw⟩
+      · rw [hst] at hw; cases hw
+      · exact absurd hcfg hw
+    · subst e; exact ⟨by simp [Lane.remaining, Lane.reject], hst⟩
+  | pop take =>
+    refine ⟨Nat.le_of_lt (lane_terminates_decreases cfg l l' take hst hs), ?_⟩
+    obtain ⟨_, he⟩ := pop_effect cfg l l' take hs
+    rcases he with ⟨e, _, _⟩ | ⟨c, rest, _, e⟩
+    · subst e; exact hst
+    · subst e; rw [(take_static l c rest).2.2.2.1]; exact hst
+  | finish id r =>
+    obtain ⟨hc, _, e⟩ := finish_effect cfg l l' id r hs
+    subst e; exact ⟨by simp [Lane.remaining, hc], hst⟩
+  | recv id pick =>
+    obtain ⟨c, r, _, _, e, _⟩ := recv_effect cfg l l' id pick hs
+    subst e; exact ⟨by simp [Lane.remaining], hst⟩
+  | cancel id => rw [cancel_effect cfg l l' id hs]; exact ⟨by simp [Lane.remaining], hst⟩
+  | stop => rw [stop_effect cfg l l' hs]; exact ⟨by simp [Lane.remaining], rfl⟩
+
+/-! ### the oracle's quiescent closure only takes transitions of the lane machine -/
+
+/-- every outcome of `settleLane` (what the correspondence compares the real code with) is a reachable
+state: the compared runs are paths of the transition system the theorems quantify over -/
+theorem settle_reach (cfg : Cfg) (k : Kind) (cap idx : Nat) : ∀ (n : Nat) (l : Lane),
+    (laneLTS cfg k cap idx).Reach l → ∀ l' ∈ settleLane cfg n l, (laneLTS cfg k cap idx).Reach l'
+  | 0, l, hr, l', h => by simp [settleLane] at h; subst h; exact hr
+  | n + 1, l, hr, l', h => by
+    simp only [settleLane] at h
+    split at h
+    · rename_i id p _
+      split at h
+      · rename_i l1 h1
+        exact settle_reach cfg k cap idx n l1 (LTS.Reach.step (m := laneLTS cfg k cap idx) (a := .recv id p) hr h1) l' h
+      · simp at h; subst h; exact hr
+    · split at h
+      · rcases List.mem_append.1 h with h | h
+        · split at h
+          · rename_i l1 h1
+            exact settle_reach cfg k cap idx n l1 (LTS.Reach.step (m := laneLTS cfg k cap idx) (a := .pop true) hr h1) l' h
+          · simp at h
+        · split at h
+          · rename_i l1 h1
+            exact settle_reach cfg k cap idx n l1 (LTS.Reach.step (m := laneLTS cfg k cap idx) (a := .pop false) hr h1) l' h
+          · simp at h
+      · split at h
+        · rename_i l1 h1
+          exact settle_reach cfg k cap idx n l1 (LTS.Reach.step (m := laneLTS cfg k cap idx) (a := .pop true) hr h1) l' h
+        · simp at h; subst h; exact hr
+
+/-! ### the executor: lanes addressed through the slot kernel -/
+
+theorem mkLanes_getElem (k : Kind) (cap : Nat) : ∀ (n i : Nat) (l : Lane),
+    (mkLanes k cap n)[i]? = some l → l = Lane.init k cap i ∧ i < n
+  | 0, i, l, h => by simp [mkLanes] at h
+  | n + 1, i, l, h => by
+    simp only [mkLanes] at h
+    by_cases hi : i < (mkLanes k cap n).length
+    · rw [List.getElem?_append_left hi] at h
+      have := mkLanes_getElem k cap n i l h
+      exact ⟨this.1, by omega⟩
+    · have hlen : ∀ m, (mkLanes k cap m).length = m := by
+        intro m; induction m with
+        | zero => rfl
+        | succ m ih => simp [mkLanes, ih]
+      rw [List.getElem?_append_right (by omega)] at h
+      rw [hlen] at h hi
+      have : i - n = 0 := by
+        cases hd : i - n with
+        | zero => rfl
+        | succ d => rw [hd] at h; simp at h
+      rw [this] at h
+      simp at h
+      have hin : i = n := by omega
+      subst hin
+      exact ⟨h.symm, by omega⟩
+
+theorem stopAll_getElem (cfg : Cfg) : ∀ (ls : List Lane) (i : Nat) (l' : Lane),
+    (stopAll cfg ls)[i]? = some l' → ∃ l, ls[i]? = some l ∧ l.step cfg .stop = some l'
+  | [], i, l', h => by simp [stopAll] at h
+  | l :: ls, 0, l', h => by
+    simp only [stopAll, Lane.step, List.getElem?_cons_zero, Option.some.injEq] at h
+    exact ⟨l, rfl, by simp [Lane.step, h]⟩
+  | l :: ls, i + 1, l', h => by
+    simp only [stopAll, List.getElem?_cons_succ] at h
+    obtain ⟨l0, h0, h1⟩ := stopAll_getElem cfg ls i l' h
+    exact ⟨l0, by simpa using h0, h1⟩
+
+/-- every lane of a reachable executor state is a reachable state of the one-lane machine with that index:
+all lane theorems above hold for every lane of a `MultiLine`, under every schedule -/
+theorem exec_lanes_reach (cfg : Cfg) (slot : Slot) (k : Kind) (nlanes cap : Nat) (x : Exec)
+    (hr : (execLTS cfg slot k nlanes cap).Reach x) :
+    x.kind = k ∧ x.nlanes = nlanes ∧ ∀ i l, x.lanes[i]? = some l → (laneLTS cfg k cap i).Reach l := by
+  induction hr with
+  | init =>
+    refine ⟨rfl, rfl, fun i l h => ?_⟩
+    have := (mkLanes_getElem k cap nlanes i l h).1
+    subst this; exact LTS.Reach.init
+  | @step s a s' _ hstep ih =>
+    obtain ⟨hk, hn, hl⟩ := ih
+    cases a with
+    | submit hash enq =>
+      simp only [execLTS, Exec.step] at hstep
+      split at hstep
+      · cases hstep; exact ⟨hk, hn, hl⟩
+      · rename_i i _
+        split at hstep
+        · cases hstep
+        · rename_i l0 hl0
+          split at hstep
+          · cases hstep
+          · rename_i l1 hl1
+            cases hstep
+            refine ⟨hk, hn, fun j l hj => ?_⟩
+            simp only at hj
+            by_cases hij : j = i
+            · subst hij
+              rw [List.getElem?_set_self (List.getElem?_eq_some_iff.1 hl0).1] at hj
+              cases hj
+              exact LTS.Reach.step (m := laneLTS cfg k cap j) (a := .submit s.next enq) (hl j l0 hl0) hl1
+            · rw [List.getElem?_set_ne (fun e => hij e.symm)] at hj
+              exact hl j l hj
+    | lane i a =>
+      simp only [execLTS, Exec.step] at hstep
+      split at hstep
+      · cases hstep
+      · split at hstep
+        · cases hstep
+        · rename_i l0 hl0
+          split at hstep
+          · cases hstep
+          · rename_i l1 hl1
+            cases hstep
+            refine ⟨hk, hn, fun j l hj => ?_⟩
+            simp only at hj
+            by_cases hij : j = i
+            · subst hij
+              rw [List.getElem?_set_self (List.getElem?_eq_some_iff.1 hl0).1] at hj
+              cases hj
+              exact LTS.Reach.step (m := laneLTS cfg k cap j) (a := a) (hl j l0 hl0) hl1
+            · rw [List.getElem?_set_ne (fun e => hij e.symm)] at hj
+              exact hl j l hj
+    | stop =>
+      simp only [execLTS, Exec.step, Option.some.injEq] at hstep
+      subst hstep
+      refine ⟨hk, hn, fun j l hj => ?_⟩
+      obtain ⟨l0, h0, h1⟩ := stopAll_getElem cfg s.lanes j l hj
+      exact LTS.Reach.step (m := laneLTS cfg k cap j) (a := .stop) (hl j l0 h0) h1
+
+/-- `slot_stable` + the index clause: the lane of a call depends on its hash (and the lane count) only, so
+equal hashes share a lane; a callee that runs in lane i was handed index i; and for an in-range kernel
+every hash — negative ones and the minimum integer included — has a lane below the lane count -/
+theorem slot_stable (slot : Slot) (k : Kind) (n : Nat) (h1 h2 : BitVec 64) (h : h1 = h2) :
+    laneOf slot k n h1 = laneOf slot k n h2 := by rw [h]
+
+theorem toInt_ofNat_small (n : Nat) (h : n < 2^63) : (BitVec.ofNat 64 n).toInt = (n : Int) := by
+  have h1 : (BitVec.ofNat 64 n).toNat = n := by simp [BitVec.toNat_ofNat]; omega
+  rw [BitVec.toInt_eq_toNat_of_lt (by omega), h1]
+
+theorem slot_lane_exists (slot : Slot) (hs : SlotOk slot) (n : Nat) (hn : 0 < n) (hb : n < 2^63) (hash : BitVec 64) :
+    ∃ i, laneOf slot .mline n hash = some i ∧ i < n := by
+  have hi := toInt_ofNat_small n hb
+  have := hs hash (BitVec.ofNat 64 n) (by rw [hi]; omega)
+  rw [hi] at this
+  refine ⟨(slot hash (BitVec.ofNat 64 n)).toInt.toNat, ?_, by omega⟩
+  simp only [laneOf, beq_self_eq_true, if_true]
+  rw [if_pos this]
+
+theorem exec_index_passed (cfg : Cfg) (slot : Slot) (k : Kind) (nlanes cap : Nat) (x : Exec)
+    (hr : (execLTS cfg slot k nlanes cap).Reach x) (i : Nat) (l : Lane) (hl : x.lanes[i]? = some l)
+    (id ln : Nat) (h : Ev.start id ln ∈ l.log) : ln = i :=
+  lane_index_passed cfg k cap i l ((exec_lanes_reach cfg slot k nlanes cap x hr).2.2 i l hl) id ln h
+
+/-- today's kernel: the minimum integer has no lane on 509 lanes (`qs[-151]` panics) -/
+theorem witness_laneOf_minInt : laneOf slotAbsFirst .mline 509 (BitVec.intMin 64) = none := by decide
+example : laneOf slotRemFirst .mline 509 (BitVec.intMin 64) = some 151 := by decide
 
 end Nv.C14
